@@ -80,7 +80,7 @@ theorem c17_overflow_closes_write (g : Cfg) (s : S) (b : Bytes) (k : KAns) (hr :
     (write g s b k).2 = ⟨-1, .overflow⟩ ∧ (write g s b k).1.closed = true := by
   have hd := (reach_inv hr).1
   have hov : overflow g s b.length = true := by simp [overflow, hm, hbig]
-  simp [write, hd.nohang, hc, writeInner, hb, hov, finishCall, closeNow]
+  simp [write, hd.nohang, hc, writeInner, hb, hov, finishCall, flip]
 
 /-- **C17 (does not fit ⇒ overflow error, closed; Writev).** -/
 theorem c17_overflow_closes_writev (g : Cfg) (s : S) (bs : List Bytes) (k : KAns) (hr : Reach g s)
@@ -98,8 +98,8 @@ theorem c17_overflow_closes_writev (g : Cfg) (s : S) (bs : List Bytes) (k : KAns
   · rename_i b
     have hov' : overflow g s b.length = true := by simpa [total] using hov
     have hb' : b.length ≠ 0 := by simpa [total] using hb
-    simp [writeInner, hb', hov', finishCall, closeNow]
-  · simp [writevInner, hov, finishCall, closeNow]
+    simp [writeInner, hb', hov', finishCall, flip]
+  · simp [writevInner, hov, finishCall, flip]
 
 /-- **C17 (overflow is only reported when the call does not fit).** -/
 theorem c17_overflow_only_if_write (g : Cfg) (s : S) (b : Bytes) (k : KAns)
